@@ -15,7 +15,7 @@ func init() {
 }
 
 // zzM_parseSingleActionList replaces parseSingleActionList inside the engine (action parsing is
-// regex-driven, DESIGN §5 C17): over the body alphabet {u,p,CR,LF} only "up" is an action.
+// regex-driven, DESIGN §5 C17): over the body alphabet {u,p,CR,LF,space} only "up" is an action (checked against the real parser).
 func zzM_parseSingleActionList(str string) ([]*action, error) {
 	if len(str) == 0 {
 		return []*action{}, nil
@@ -114,7 +114,7 @@ func zzH_C16_http() {
 		nb := zzv.Choose(0, zzv.CfgInt("body"))
 		bb := make([]byte, nb)
 		for i := range bb {
-			bb[i] = "up\r\n"[zzv.Below(4)]
+			bb[i] = "up\r\n "[zzv.Below(5)]
 		}
 		body = string(bb)
 		req += body
